@@ -20,6 +20,8 @@ class Sim:
         self.settings = bytearray(90)
         self.fail_next = 0          # number of following requests that fail with RequestFailedException
         self.lose = set()           # absolute request ordinals (index in self.log) that get no answer
+        self.silent = []            # (lo, hi) inclusive register ranges whose requests get no answer at all
+        self.reject_write = None    # dict(n=k, code=c): the k-th write request from now on (1-based) is answered with Modbus exception c, nothing stored
         self.salt = self.rng.randrange(65536)
 
     # ---- register file
@@ -52,7 +54,7 @@ class Sim:
         req = F.parse_req(raw)
         if req is None:
             self.log.append(dict(kind='?', raw=raw)); return ('fail',)
-        if self.fail_next > 0 or len(self.log) in self.lose:
+        if self.fail_next > 0 or len(self.log) in self.lose or (req.get('reg') is not None and req['kind'] != 'aa55' and any(lo <= req['reg'] <= hi for lo, hi in self.silent)):
             if self.fail_next > 0: self.fail_next -= 1
             self.log.append(dict(kind=req['kind'], fn=req.get('fn', req.get('type')), reg=req.get('reg'), count=req.get('val'), raw=raw, lost=True))
             return ('fail',)
@@ -63,6 +65,12 @@ class Sim:
             self.log.append(dict(kind=k, fn=3, reg=reg, count=cnt, raw=raw))
             if self.refused(reg, cnt): return ('exc', 2)
             return ('ok', F.valid_response(req, lambda r, c: self.get_bytes(r, c)))
+        if fn in (6, 16) and self.reject_write is not None:
+            self.reject_write['n'] -= 1
+            if self.reject_write['n'] == 0:
+                code = self.reject_write['code']; self.reject_write = None
+                self.log.append(dict(kind=k, fn=fn, reg=reg, val=req.get('val'), count=req.get('count'), payload=req.get('payload'), raw=raw, rejected=code))
+                return ('exc', code)
         if fn == 6:
             self.log.append(dict(kind=k, fn=6, reg=reg, val=req['val'], raw=raw))
             if self.refused(reg, 1): return ('exc', 2)
@@ -137,6 +145,49 @@ def attach(inv, sim: Sim):
     inv._read_from_socket = _read_from_socket
     inv._sim = sim
     return inv
+
+
+# ------------------------------------------------------------------------------------------------ end to end: the real protocol classes
+# Objects created while e2e mode is on keep their own _read_from_socket: their requests travel through Udp/TcpInverterProtocol on a virtual-time loop
+# (harness/vloop.py) to a peer that answers from the object's simulator (answer / Modbus exception frame / silence), found by the object's host.
+E2E = {'on': False, 'sims': {}, 'n': 0}
+
+
+class e2e:
+    def __enter__(self): E2E['on'] = True; return self
+    def __exit__(self, *a): E2E['on'] = False; E2E['sims'].clear()
+
+
+def e2e_host(sim: Sim) -> str:
+    E2E['n'] += 1
+    host = f'10.{(E2E["n"] >> 16) & 255}.{(E2E["n"] >> 8) & 255}.{E2E["n"] & 255}'
+    E2E['sims'][host] = sim
+    return host
+
+
+def run_e2e(coro):
+    from . import vloop as V, peer as PEER
+
+    class SimPeer(PEER.Peer):
+        def __init__(self, loop, sock, kind, remote):
+            super().__init__(loop, sock, kind, remote, PEER.Script('', default='N', timeout=1))
+            self.sim = E2E['sims'][remote[0]]
+
+        def handle(self, raw):
+            req = F.parse_req(raw)
+            r = self.sim.handle(raw)
+            if r[0] == 'ok': self._send(r[1])
+            elif r[0] == 'exc' and req is not None and req['kind'] != 'aa55': self._send(F.exception_response(req, r[1]))
+            # 'fail': the request is lost, nothing is sent
+    loop = V.VLoop()
+    loop.peer_factory = SimPeer
+
+    async def main(lp):
+        return await coro
+    lp, out = V.run(main, loop)
+    if out[0] == 'ok': return out[1]
+    if out[0] == 'exc': raise out[1]
+    raise RuntimeError('the call never returns: ' + str(out[1])[:200])
 
 
 def et_identity(sim: Sim, serial='9010KETU123W0001', model='GW10K-ET', rated=10000, arm_fw=19):
